@@ -216,6 +216,19 @@ func GenRandom(r *rand.Rand, pf Profile) *Scenario {
 				ops = append(ops, Op{Kind: "sleep", US: r.Intn(200)})
 			}
 		}
+		if r.Intn(3) == 0 {
+			// back-to-back strobes of one (long-lived, possibly shared) cell
+			// while a write to another cell restarts rerunners, as the last
+			// thing this writer does
+			c := r.Intn(sc.Cells)
+			ops = append(ops, Op{Kind: "write", Cell: c, Style: WStrobe},
+				Op{Kind: "write", Cell: r.Intn(sc.Cells), Style: WInvalidate},
+				Op{Kind: "sleep", US: r.Intn(400)},
+				Op{Kind: "write", Cell: c, Style: WStrobe})
+			if r.Intn(2) == 0 {
+				ops = append(ops, Op{Kind: "write", Cell: c, Style: WStrobe})
+			}
+		}
 		sc.Writers = append(sc.Writers, ops)
 	}
 	return sc
@@ -351,6 +364,31 @@ func GenMatrix(r *rand.Rand, m MatrixCell, pf Profile) *Scenario {
 		inj.Action, inj.Cell = WStrobe, 1
 	case "invalidate-child-leaf":
 		inj.Action, inj.Cell = WInvalidate, 2
+	case "restrobe":
+		// Strobe again right behind a strobe pass's snapshot, after rerunner 0
+		// re-registered the strobed cell with a fresh computation.
+		inj.Action, inj.Cell = "restrobe", 1
+		switch m.Visit {
+		case 1:
+			inj.Trigger, inj.TrigStyle = 0, WInvalidate
+		case 2:
+			inj.Trigger, inj.TrigStyle = 2, WInvalidate // through cached children
+		default:
+			inj.Trigger, inj.TrigStyle = 0, WDouble
+		}
+		if m.Point == "reactive.strobe.snapshot" {
+			// aim at the LAST strobe pass of the scenario so that no later
+			// write re-runs the rerunners and masks a dropped invalidation
+			ops = append(ops, Op{Kind: "write", Cell: 1, Style: WStrobe})
+			n := 0
+			for _, o := range ops {
+				if o.Kind == "write" && o.Style == WStrobe {
+					n++
+				}
+			}
+			inj.Visit = n
+			sc.Writers = [][]Op{ops}
+		}
 	case "stop":
 		inj.Action = "stop"
 	case "purge":
